@@ -385,7 +385,8 @@ def get_item(I, o, k):
         has = V.dhas(V.vd(o.t), kt)
         if not I.p.branch(has, "mdict-key-present"):
             raise PyRaise(KeyError("<symbolic key>"))
-        return SV(V.dget(V.vd(o.t), kt, V.ABSENT))
+        # a view of the entry: reads lower to the value bound now, `.append` / `.extend` update the dict in place
+        return V.DDEntry(o, kt)
     if isinstance(o, MList):
         o = SV(o.t)
     if isinstance(o, SV):
@@ -822,6 +823,23 @@ def _havoc(I, env, pth, label):
     if not env.has(name):
         return
     if len(pth) == 1:
+        if name not in env.vars and name not in env.nonlocals:
+            # a variable of an enclosing scope that the body mutates (it cannot rebind it without `nonlocal`): the object it
+            # names gets arbitrary contents - the binding, shared with the enclosing function and its other closures, stays
+            cur = env.lookup(name)
+            if isinstance(cur, MList):
+                t = I.p.fresh(label)
+                I.p.assume(V.is_VList(t))
+                cur.t = t
+                return
+            if isinstance(cur, MDict):
+                t = I.p.fresh(label)
+                I.p.assume(V.is_VDict(t))
+                cur.t = t
+                return
+            if isinstance(cur, V.MSet):
+                cur.elems = I.p.fresh(label, V.VL)
+                return
         env.assign(name, fresh_like(env.lookup(name)))
         return
     o = env.lookup(name)
